@@ -134,6 +134,20 @@ func runBatch(obs []*Oblig, timeoutS int, all bool) {
 			sem <- struct{}{}
 			defer func() { <-sem }()
 			best, allr := RunScript(j.obs[0].Name, j.sc, timeoutS, all)
+			if best.Result != "unsat" && !j.obs[0].NoSlice && !j.obs[0].Soft {
+				// the cone-of-influence slice may have dropped the facts that make this path infeasible:
+				// retry once with every hypothesis of the path
+				o0 := j.obs[0]
+				o0.NoSlice = true
+				sc2 := prepare(o0)
+				o0.NoSlice = false
+				if sc2.Text != j.sc.Text {
+					b2, a2 := RunScript(o0.Name+"-full", sc2, timeoutS, all)
+					if b2.Result == "unsat" {
+						best, allr = b2, a2
+					}
+				}
+			}
 			for _, o := range j.obs {
 				o.Res, o.All = best, allr
 			}
